@@ -535,6 +535,7 @@ def gen_assemble_config(rng, tier):
         "mcmc_seed": rng.randrange(1, 1 << 20),
         "temperatures": rng.choice([None, None, [0.5], [0.2, 0.6]]),
         "mci_threshold": rng.choice([None, None, 0.3, 0.9]),
+        "report_afp": rng.random() < 0.5,
     })
     return cfg
 
@@ -558,6 +559,8 @@ def run_assemble_cli(ctx, on_fit):
             argv += ["--mcmc-temperatures"] + [repr(t) for t in cfg["temperatures"]] + ["1.0"]
         if cfg.get("mci_threshold") is not None:
             argv += ["--mcmc-chain-incongruence-threshold", repr(cfg["mci_threshold"])]
+        if cfg.get("report_afp"):
+            argv += ["--report", "AFP", "AOP"]
         cur = {}
         recs = []
         real_cls = amod.DenovoMCMC
@@ -645,6 +648,8 @@ def shrink_candidates(cfg):
         mod(max_alts=cfg["max_alts"] - 1)
     if cfg.get("report_gp"):
         mod(report_gp=False)
+    if cfg.get("report_afp"):
+        mod(report_afp=False)
     if cfg.get("allele_filter") is not None:
         mod(allele_filter=None)
     if cfg.get("dummy_parent"):
